@@ -530,10 +530,13 @@ def run_history(hist: dict):
     lines, outs, trace = [], [], []
     try:
         w.start()
-        lines.append(f"init {hist['srv']}")
+        # `_instance_id` (the per-instance part of automatic tokens) is read from the real context and handed to the model;
+        # a tree without it is run with an empty one (the token format then differs: broken correspondence, oracle decides)
+        nonce = [getattr(c, "_instance_id", "") or "-" for c in w.contexts]
+        lines.append(f"init {hist['srv']} {nonce[0]}")
         outs.append("ok")
         for i, nm in enumerate(hist["ctxs"]):
-            lines.append(f"ctx {nm}")
+            lines.append(f"ctx {nm} {nonce[i + 1]}")
             outs.append(str(i + 1))
         for i, ci in enumerate(hist["proxies"]):
             lines.append(f"proxy {ci}")
@@ -631,6 +634,11 @@ def oracle(hist: dict, trace: list):
 
         if out == "hang":
             return F(f"request-unanswered:{okind}:{st}", f"no reply within the bounded wait (probe: {ev['probe']})")
+        if kind == "lock" and op[2] in RESERVED and out == "exc:QMI_UsageException":
+            # the reply placeholders are refused as custom tokens before anything is sent: nothing may change
+            if ev["owner_before"] != ev["owner_after"] or ev["count_after"] != ev["count_before"] or not ev["probe"].startswith("alive"):
+                return F(f"refused-reserved-token-changed-state:{okind}:{st}", f"owner {ev['owner_before']} -> {ev['owner_after']}, probe {ev['probe']}")
+            continue
         if out.startswith("exc:") or out.startswith("val:"):
             return F(f"unexpected-result:{okind}:{st}:{out}", f"returned/raised {out}")
         if not ev["probe"].startswith("alive"):
@@ -802,8 +810,8 @@ def sweep_histories() -> list:
         "locked-custom": [["lock", 0, "x"]],
     }
     out = []
-    # the remaining symptoms of the same-name token collision (a stale token of one client equals the fresh token of
-    # the other): always exercised, so that every run reports the same set of findings
+    # regression cases of the (repaired, 93903ab) same-name token collision: a stale token of one client used to equal
+    # the fresh token of a same-named client
     for tail_op, nm in ((["call", 2, "b"], "stale-call-b"), (["call", 2, "n"], "stale-call-n"), (["unlock", 2, None], "stale-unlock")):
         out.append({**base, "ops": [["lock", 2, None], ["force", 4], ["lock", 0, None], tail_op, ["islocked", 3]],
                     "cell": f"same-name/{nm}"})
@@ -861,9 +869,9 @@ def _jsonable_trace(trace):
 # harness.simworld.run_scenario with a yield point at every *line* of QMI_Context.make_unique_token.
 #
 # spec = {"kind": "conc", "layout": "same-srv"|"same-cli"|"diff"|"mixed", "threads": k, "rounds": r,
-#         "policy": "weighted"|"pct", "seed": n, "change_points": [..]|None}
+#         "policy": "weighted"|"pct", "seed": n, "change_points": [..]|None}      (+ layout "same-name")
 
-_CONC_LAYOUTS = ("same-srv", "same-cli", "diff", "mixed")
+_CONC_LAYOUTS = ("same-srv", "same-cli", "diff", "mixed", "same-name")
 
 
 class _ConcTaps:
@@ -956,6 +964,8 @@ def _conc_ctx_layout(spec):
         return [1] * k, ["cli"]
     if lay == "diff":
         return list(range(1, k + 1)), [f"cli{i}" for i in range(k)]
+    if lay == "same-name":                                   # one client context per thread, all named alike
+        return list(range(1, k + 1)), ["cli"] * k
     return [1, 1] + list(range(2, k)), ["cli"] + [f"cli{i}" for i in range(2, k)]     # mixed: two share a context
 
 
@@ -1079,7 +1089,7 @@ def conc_model_lines(events):
     """Worker-side linearised request log as driver lines + the outputs the real worker produced (trace refinement)."""
     def st(t):
         return "-" if t is None else f"{t[0]}/{t[1]}"
-    lines, outs = ["init srv"], ["ok"]
+    lines, outs = ["init srv 0"], ["ok"]
     amap = {"ACQUIRE": "acquire", "RELEASE": "release", "FORCE_RELEASE": "force", "QUERY": "query"}
     for ev in events:
         if ev[0] == "lockreq":
@@ -1116,15 +1126,12 @@ def conc_specs(rng, quick: bool) -> list:
 _MALFORMED = [("lock x -", "bad-op"), ("lock 0", "bad-op"), ("lock 0 x", "bad-op"), ("call 0 z", "bad-op"), ("proxy 99", "bad-op"),
               ("lock 99 -", "bad-op"), ("unlock 99 =x", "bad-op"), ("force 99", "bad-op"), ("islocked 99", "bad-op"),
               ("call 99 b", "bad-op"), ("burn 99", "bad-op"), ("tok 99", "bad-op"), ("counter 99", "bad-op"), ("", "bad-op"),
-              ("frobnicate", "bad-op"), ("init", "bad-op"), ("proxy -1", "bad-op")]
+              ("frobnicate", "bad-op"), ("init", "bad-op"), ("init srv", "bad-op"), ("ctx cli", "bad-op"), ("proxy -1", "bad-op")]
 
 
 class C04(Prop):
     id = "C04"
-    # Props/C04Pinned.lean holds the negation witnesses of the FORCE_RELEASE-on-unlocked crash (DESIGN §7a); translate()
-    # keeps it among the obligations exactly when the real handler is seen to crash in that cell
-    lean_modules = ["QmiModel.Props.C04", "QmiModel.Props.C04Pinned"]
-    props_files = ["QmiModel/Props/C04.lean", "QmiModel/Props/C04Pinned.lean"]
+    lean_modules = ["QmiModel.Props.C04"]
     driver = "drv_c04"
     modelled_not_verified = [
         "message transport between proxy and worker (QMI_RpcFuture, MessageRouter, TCP peers): a request reaches the worker and "
@@ -1134,7 +1141,9 @@ class C04(Prop):
         "schedule family (harness.simworld, line-level yield points), not proved",
         "QMI_RpcProxy.lock(timeout > 0) retry loop (only the single-attempt path timeout=0 is modelled)",
         "str(int) of the token counter = Lean `toString` on Nat (differentially checked by every automatic lock())",
-        "custom tokens that imitate the automatic namespace (`$lock_<n>`) are deliberate forgery and are not generated",
+        "freshness of QMI_Context._instance_id (os.urandom(6)): the theorems assume the identifiers of distinct context instances "
+        "differ (hypothesis `nonces …Nodup`); the harness reads the real identifiers and hands them to the model",
+        "custom tokens that imitate the automatic namespace (`$lock_<instance id>_<n>`) are deliberate forgery and are not generated",
         "pickling of QMI_LockTokenDescriptor preserves == (tokens cross real TCP connections in the correspondence run)",
     ]
     extra_trusted = [
@@ -1148,13 +1157,6 @@ class C04(Prop):
         t = build_tables(random.Random(f"C04-translate:{ctx.seed}"))
         core.write_if_changed(GEN_FILE, render_gen(t))
         self._tables = t
-        if all(t["lock"][("FORCE_RELEASE", False, r)].startswith("crash:") for r in ("none", "other")):
-            self.lean_modules = ["QmiModel.Props.C04", "QmiModel.Props.C04Pinned"]
-            self.props_files = ["QmiModel/Props/C04.lean", "QmiModel/Props/C04Pinned.lean"]
-        else:   # the cell answers: nothing left to witness, Props/C04.lean carries the property alone
-            self.lean_modules = ["QmiModel.Props.C04"]
-            self.props_files = ["QmiModel/Props/C04.lean"]
-            ctx.log("FORCE_RELEASE on an unlocked object is answered in this tree: Props/C04Pinned.lean (witnesses of that defect) not among the obligations")
         return [GEN_FILE]
 
     # -- helpers --------------------------------------------------------------------------------
@@ -1307,7 +1309,7 @@ class C04(Prop):
         self._conc_family(ctx, res, ctx.quick)
         # malformed driver input
         drv = LeanDriver(self.driver)
-        lines = ["init srv", "ctx cli", "proxy 1"] + [l for l, _ in _MALFORMED]
+        lines = ["init srv a0", "ctx cli b1", "proxy 1"] + [l for l, _ in _MALFORMED]
         outs = drv.run(lines)
         for (l, exp), got in zip(_MALFORMED, outs[3:]):
             res.count("malformed_lines")
